@@ -133,6 +133,7 @@ func genDispatch(c *ctx) string {
 	b.WriteString("def metaArgsUnchecked : Bool := " + metaArgsFact(c) + "\n")
 	b.WriteString("def ptrValueDistinct : Bool := " + ptrValueForm(c) + "\n")
 	b.WriteString("def unionAtMember : Bool := " + unionAtMemberForm(c) + "\n")
+	b.WriteString("def impliedSchemaUnvalidated : Bool := " + impliedSchemaForm(c) + "\n")
 	b.WriteString("def reflectOptionalRefused : Bool := " + reflectOptionalForm(c) + "\n")
 	b.WriteString("def inputDefaultsRaw : Bool := " + inputValidateForm(c) + "\n")
 	b.WriteString("def listNotCoerced : Bool := " + lnc + "\n")
@@ -427,6 +428,27 @@ func unionAtMemberForm(c *ctx) string {
 		return "false"
 	}
 	return unknown("union arm walk type", c.pos(fd))
+}
+
+// impliedSchemaForm (D105): is a schema formed from the Query / Mutation / Subscription types — which is not in
+// the list of types — left out of validation (so what `extend schema` adds to it is never checked), or validated once
+// it has a field?
+func impliedSchemaForm(c *ctx) string {
+	fd := c.funcs["Root.validate"]
+	if fd == nil {
+		return unknown("Root.validate", "root.go")
+	}
+	t := regexp.MustCompile(`(?m)//.*$`).ReplaceAllString(c.src(fd.Body), "")
+	t = regexp.MustCompile(`\s+`).ReplaceAllString(t, " ")
+	const loops = `var errs []error for _, t := range root.types.list { errs = append(errs, root.validateTypeName("type", t)...) errs = append(errs, root.validateDirUses(t)...) errs = append(errs, t.Validate(root)...) } for _, t := range root.dirs.list { errs = append(errs, root.validateTypeName("directive", t)...) errs = append(errs, root.validateDirUses(t)...) errs = append(errs, t.Validate(root)...) } `
+	const tail = `if 0 < len(errs) { return Errors(errs) } return nil }`
+	switch t {
+	case "{ " + loops + tail:
+		return "true"
+	case "{ " + loops + `if root.schema != nil && root.schema.implied && 0 < root.schema.fields.Len() { errs = append(errs, root.validateDirUses(root.schema)...) errs = append(errs, root.schema.Validate(root)...) } ` + tail:
+		return "false"
+	}
+	return unknown("Root.validate body", c.pos(fd))
 }
 
 // reflectOptionalForm (D94): is an optional argument that is left out (or null) refused by checkReflectArgs
@@ -849,6 +871,10 @@ func assureSchemaForm(c *ctx) string {
 	others := 0
 	for name, f := range c.funcs {
 		if name != "Root.assureSchema" && f.Body != nil && strings.Contains(c.src(f.Body), "implied") {
+			// (Root.validate may read it, to validate an implied schema that was extended: impliedSchemaForm)
+			if name == "Root.validate" && impliedSchemaForm(c) == "false" {
+				continue
+			}
 			others++
 		}
 	}
